@@ -90,6 +90,15 @@ def _relation_labels(kind, rng, n_max=6):
             return base, list(base), 'identical'
         m = rng.randint(0, n_max)
         return base, list(range(m)), 'overlap' if m else 'empty_one'
+    if kind.startswith('hier') and rng.random() < 0.25:
+        outers = rng.sample(['a', 'b', 'c', 'd'], rng.randint(2, 3))
+        inners = rng.sample([1, 2, 3, 4], rng.randint(2, 3))
+        a = [(o, i) for o in outers for i in inners]
+        b = list(a)
+        g = rng.randrange(len(outers))
+        j = g * len(inners) + rng.randrange(len(inners))
+        b[j] = (b[j][0], 9)
+        return (a, b, 'product_one_inner_label_differs') if rng.random() < 0.7 else (b, a, 'product_one_inner_label_differs')
     pool = L.labels_for(kind, 2 * n_max, rng)
     if kind.startswith('hier'):
         pool = L.tree_labels(2, 2 * n_max, rng)
@@ -150,7 +159,7 @@ def generate(ctx):
                 rng.shuffle(b)
                 rel = rel + '+other_repeats'
             yield {'t': 'setop', 'kind': kind, 'op': rng.choice(['union', 'intersection', 'difference']), 'a': a, 'b': b, 'c': c,
-                   'rel': rel, 'other_form': other_form}
+                   'rel': rel, 'other_form': other_form, 'go': rng.random() < 0.25}
         elif r < 0.62:
             kind = rng.choice(_LABEL_KINDS)
             a, b, rel = _relation_labels(kind, rng)
@@ -252,8 +261,14 @@ def _onesided_ok(op, present, dt, got):
     return False
 
 
-def _index(kind, labels):
-    return L.build_index(kind, labels)
+def _index(kind, labels, go=False):
+    import static_frame as sf
+    if kind.startswith('hier') and labels and len(labels[0]) == 2:
+        # a full product in product order is built by from_product (its branches share one inner Index object)
+        outers, inners = list(dict.fromkeys(t[0] for t in labels)), list(dict.fromkeys(t[1] for t in labels))
+        if len(outers) >= 2 and [tuple(t) for t in labels] == [(o, i) for o in outers for i in inners]:
+            return (sf.IndexHierarchyGO if go else sf.IndexHierarchy).from_product(outers, inners)
+    return L.build_index(kind, labels, go=go) if go else L.build_index(kind, labels)
 
 
 def _series(kind, labels, vals, dt):
@@ -286,13 +301,14 @@ def _check_setop(case, ctx):
     import static_frame as sf
     kind, op, a, b, c = case['kind'], case['op'], case['a'], case['b'], case['c']
     ca, cb = [cs(x) for x in a], [cs(x) for x in b]
-    nontrivial = (case['rel'].split('+')[0] in ('permuted', 'overlap', 'subset', 'disjoint') and len(a) >= 1) or case['rel'].startswith('empty_receiver')
+    nontrivial = (case['rel'].split('+')[0] in ('permuted', 'overlap', 'subset', 'disjoint', 'product_one_inner_label_differs') and len(a) >= 1) or case['rel'].startswith('empty_receiver')
     ctx.evaluation(repr(case), nontrivial)
     ctx.tally('setop', f"{op}:{case['rel']}")
     ctx.tally('set_kind', kind)
     ctx.sample({'setop': op, 'kind': kind, 'a': repr(a), 'b': repr(b), 'c': repr(c)})
     klass = {'t': 'setop', 'op': op, 'kind': kind, 'rel': case['rel'], 'other_form': case['other_form'], 'three': c is not None}
-    ia = _index(kind if kind != 'auto' else 'range', a)
+    go = bool(case.get('go')) and kind not in ('auto', 'range', 'IndexDate', 'IndexYearMonth', 'bool')
+    ia = _index(kind if kind != 'auto' else 'range', a, go=go)
     others = [b] + ([c] if c is not None and op != 'difference' else [])
     args = []
     for o in others:
@@ -337,6 +353,19 @@ def _check_setop(case, ctx):
     if not _members(got, want):
         ctx.violation('set_operation_membership', detail={'expected': want, 'got': got}, klass=klass)
         return
+    if go:
+        # a set operation returns a new index: growing the grow-only operand afterwards (or the result) must not show in the other
+        fresh = ('zz', 999) if kind.startswith('hier') else ('ZZZ' if kind in ('str', 'mixed', 'tuple') else 98765)
+        ctx.tally('setop_receiver', 'grow_only')
+        try:
+            ia.append(fresh)
+        except Exception as e:
+            ctx.tally('setop_growth_raised', type(e).__name__)
+        else:
+            again = [cs(x) for x in canon.index_labels(out)]
+            if again != got or (fresh in out):
+                ctx.violation('set_operation_result_follows_operand_growth', detail={'before': got, 'after': again}, klass=klass)
+                return
     identical = all(len(o) == len(a) and all(canon.leq(x, y) for x, y in zip([cs(v) for v in o], ca)) for o in others)
     indices_only = case['other_form'] == 'index' or kind.startswith('hier')  # the order clause is about operands that are indices
     if identical and indices_only and op in ('union', 'intersection') and not canon.seq_eq(got, ca, canon.leq):
